@@ -12,7 +12,7 @@ use std::rc::Rc;
 #[derive(Clone, Copy, PartialEq, Eq, Debug)]
 pub enum Kind { Block, Spin, NullSp, Exiter }
 #[derive(Clone, Debug)]
-pub struct ThreadSpec { pub kind: Kind, pub sp_off: u32, pub pages: u32, pub name: Option<Vec<u8>> }
+pub struct ThreadSpec { pub kind: Kind, pub sp_off: u32, pub pages: u32, pub name: Option<Vec<u8>>, pub at: Option<u64> }
 #[derive(Clone, Debug, Default)]
 pub struct Scenario { pub threads: Vec<ThreadSpec>, pub lines: Vec<String> }
 impl Scenario {
@@ -21,7 +21,7 @@ impl Scenario {
         for t in &self.threads {
             let k = match t.kind { Kind::Block => "block", Kind::Spin => "spin", Kind::NullSp => "nullsp", Kind::Exiter => "exiter" };
             let name = match &t.name { None => "-".to_string(), Some(n) if n.is_empty() => "00".to_string(), Some(n) => n.iter().map(|b| format!("{b:02x}")).collect() };
-            s.push_str(&format!("thread {k} {} {} {name}\n", t.sp_off, t.pages));
+            match t.at { Some(addr) => s.push_str(&format!("threadat {k} {addr:x} {} {name}\n", t.pages)), None => s.push_str(&format!("thread {k} {} {} {name}\n", t.sp_off, t.pages)) }
         }
         for l in &self.lines { s.push_str(l); s.push('\n'); }
         s
@@ -49,7 +49,7 @@ impl Target {
         let mut reader = BufReader::new(child.stdout.take().unwrap());
         let mut line = String::new();
         reader.read_line(&mut line).map_err(|e| e.to_string())?;
-        if !line.starts_with("READY") { let _ = child.kill(); let _ = child.wait(); return Err(format!("target did not become ready: {line:?}")); }
+        if !line.starts_with("READY") { let _ = child.kill(); let st = child.wait(); return Err(format!("target did not become ready: {line:?} status {st:?} scenario {:?}", scen.text())); }
         let mut facts = HashMap::new(); let mut fact_list = Vec::new();
         for tok in line.split_whitespace().skip(1) { if let Some((k, v)) = tok.split_once('=') { facts.insert(k.to_string(), v.to_string()); fact_list.push((k.to_string(), v.to_string())); } }
         let pid: i32 = facts["pid"].parse().unwrap();
@@ -100,6 +100,33 @@ pub struct World {
     pub maps: Vec<u8>, pub auxv: Vec<u8>, pub cmdline: Vec<u8>, pub environ: Vec<u8>, pub limits: Vec<u8>, pub status: Vec<u8>,
     pub fds: Vec<(i32, String, u32)>,
     pub pid: i32,
+    pub snaps: Vec<(u64, Vec<u8>)>,     // memory snapshots taken inside the suspended window
+}
+impl World {
+    pub fn mem(&self, addr: u64, len: usize) -> Option<&[u8]> {
+        for (a, b) in &self.snaps { if addr >= *a && addr + len as u64 <= *a + b.len() as u64 { let o = (addr - *a) as usize; return Some(&b[o..o + len]); } }
+        None
+    }
+    pub fn lines(&self) -> Vec<MapLine> { parse_maps(&self.maps) }
+    pub fn auxv_value(&self, key: u64) -> Option<u64> {
+        for c in self.auxv.chunks_exact(16) { let k = u64::from_le_bytes(c[0..8].try_into().unwrap()); let v = u64::from_le_bytes(c[8..16].try_into().unwrap()); if k == 0 { break; } if k == key { return Some(v); } }
+        None
+    }
+}
+#[derive(Clone, Debug)]
+pub struct MapLine { pub start: u64, pub end: u64, pub perms: String, pub offset: u64, pub name: String }
+/// independent parser of /proc/<pid>/maps
+pub fn parse_maps(text: &[u8]) -> Vec<MapLine> {
+    let mut v = Vec::new();
+    for l in String::from_utf8_lossy(text).lines() {
+        let mut it = l.splitn(6, ' ');
+        let (Some(range), Some(perms), Some(off), Some(_dev), Some(_inode)) = (it.next(), it.next(), it.next(), it.next(), it.next()) else { continue };
+        let name = it.next().unwrap_or("").trim().to_string();
+        let Some((a, b)) = range.split_once('-') else { continue };
+        let (Ok(start), Ok(end), Ok(offset)) = (u64::from_str_radix(a, 16), u64::from_str_radix(b, 16), u64::from_str_radix(off, 16)) else { continue };
+        v.push(MapLine { start, end, perms: perms.to_string(), offset, name });
+    }
+    v
 }
 pub fn read_file(p: &str) -> Vec<u8> { std::fs::read(p).unwrap_or_default() }
 pub fn read_mem(pid: i32, addr: u64, len: usize) -> Option<Vec<u8>> {
@@ -128,8 +155,9 @@ fn ptrace_dregs(tid: i32) -> [u64; 8] {
     }
     d
 }
-pub fn capture_world(pid: i32, blamed: i32) -> World {
+pub fn capture_world(pid: i32, blamed: i32, ranges: &[(u64, usize)]) -> World {
     let mut w = World { pid, ..Default::default() };
+    for (a, n) in ranges { if let Some(b) = read_mem(pid, *a, *n) { w.snaps.push((*a, b)); } }
     if let Ok(rd) = std::fs::read_dir(format!("/proc/{pid}/task")) {
         for e in rd.flatten() {
             let Ok(tid) = e.file_name().to_string_lossy().parse::<i32>() else { continue };
@@ -142,6 +170,8 @@ pub fn capture_world(pid: i32, blamed: i32) -> World {
             }
             let regs = ptrace_regs(tid);
             let (fpregs, dregs) = if regs.is_some() { (ptrace_fpregs(tid), ptrace_dregs(tid)) } else { (None, [0; 8]) };
+            // the live stack of every attached thread, from the page of its stack pointer upward
+            if let Some(r) = regs { if r.rsp != 0 { if let Some(b) = read_mem(pid, r.rsp & !0xfff, 1 << 20) { if !b.is_empty() { w.snaps.push((r.rsp & !0xfff, b)); } } } }
             w.threads.push(WThread { tid, comm, regs, fpregs, dregs, state, tracer });
         }
     }
@@ -169,14 +199,15 @@ pub struct RunOut {
 pub type HookFn = Box<dyn FnMut(Point)>;
 /// Runs `f` (which calls `writer.dump(..)`) with a hook that records the points, captures the world
 /// at ThreadsSuspended and forwards every point to `extra`.
-pub fn with_hooks<R>(pid: i32, blamed: i32, capture: bool, mut extra: Option<HookFn>, f: impl FnOnce() -> R) -> (R, Option<World>, Vec<String>) {
+pub fn with_hooks<R>(pid: i32, blamed: i32, capture: bool, extra: Option<HookFn>, f: impl FnOnce() -> R) -> (R, Option<World>, Vec<String>) { with_hooks_ranges(pid, blamed, capture, vec![], extra, f) }
+pub fn with_hooks_ranges<R>(pid: i32, blamed: i32, capture: bool, ranges: Vec<(u64, usize)>, mut extra: Option<HookFn>, f: impl FnOnce() -> R) -> (R, Option<World>, Vec<String>) {
     let world: Rc<RefCell<Option<World>>> = Rc::new(RefCell::new(None));
     let events: Rc<RefCell<Vec<String>>> = Rc::new(RefCell::new(Vec::new()));
     let (w2, e2) = (world.clone(), events.clone());
     let hook: HookFn = Box::new(move |p: Point| {
         e2.borrow_mut().push(match p { Point::ThreadEnumerated(t) => format!("enumerated:{t}"), Point::ThreadsEnumerated => "threads_enumerated".into(),
                                       Point::ThreadsSuspended => "threads_suspended".into(), Point::BeforeResume => "before_resume".into() });
-        if capture && p == Point::ThreadsSuspended { *w2.borrow_mut() = Some(capture_world(pid, blamed)); }
+        if capture && p == Point::ThreadsSuspended { *w2.borrow_mut() = Some(capture_world(pid, blamed, &ranges)); }
         if let Some(x) = extra.as_mut() { x(p); }
     });
     let prev = verif_hooks::set_hook(Some(hook));
